@@ -41,6 +41,23 @@ Proof.
 Qed.
 Print Assumptions decode_encode_any_split.
 
+(** a HISTORY of sendEncoded calls on one connection, some of which are refused (BananaError, at
+    any nesting position of the offending element): the transport receives exactly the
+    concatenation of the encodings of the accepted expressions - a refusal writes nothing and
+    leaves nothing behind for the next call *)
+Theorem encode_sequence : forall (pb : bool) (es : list sexp),
+  encode_all pb (filter (accepts pb) es) = Ok (send_all pb es).
+Proof. exact encode_sequence_lemma. Qed.
+Print Assumptions encode_sequence.
+
+(** ... and the receiver, under any segmentation, gets exactly the accepted expressions, in order *)
+Theorem sender_history_roundtrip : forall (pb : bool) (es : list sexp) (chunks : list (list N)),
+  Forall wf (filter (accepts pb) es) -> concat chunks = send_all pb es -> Forall (fun c => c <> []) chunks ->
+  let s := feed_all pb init chunks in
+  st_outs s = filter (accepts pb) es /\ st_err s = None /\ st_stack s = [] /\ st_buf s = [].
+Proof. exact sender_history. Qed.
+Print Assumptions sender_history_roundtrip.
+
 (** every well-formed expression is accepted by the encoder *)
 Theorem wellformed_is_encodable : forall pb e, wf e -> exists b, encode pb e = Ok b.
 Proof. exact encode_total. Qed.
